@@ -1,0 +1,106 @@
+//go:build verif
+
+// Contracts for package udp, read by /verif/govc (comment lines starting with //@).
+
+package udp
+
+import (
+	"encoding/binary"
+	"net/netip"
+
+	"github.com/DataDog/datadog-traceroute/packets"
+)
+
+func specLocal(u *udpDriver) netip.AddrPort  { return u.getLocalAddrPort() }
+func specTarget(u *udpDriver) netip.AddrPort { return u.getTargetAddrPort() }
+
+// specIsErr: the packet is one of the ICMP errors a UDP probe can elicit (time exceeded in transit, or destination unreachable).
+func specIsErr(p *packets.FrameParser) bool { return p.IsTTLExceeded() || p.IsDestinationUnreachable() }
+func specIs4(p *packets.FrameParser) bool   { return len(p.Layers) >= 2 && int(p.Layers[1]) == 19 }
+func specIs6(p *packets.FrameParser) bool   { return len(p.Layers) >= 2 && int(p.Layers[1]) == 57 }
+
+// specGenuine4: an ICMPv4 error quoting this run's probe with TTL t: the probe's destination address and port,
+// (unless relaxed) its source address and port, and the IP-ID under which the probe with TTL t was recorded.
+func specGenuine4(u *udpDriver, p *packets.FrameParser, t uint8) bool {
+	q := p.ICMP4.Payload
+	if !specIs4(p) || !specIsErr(p) || !packets.SpecQ4ok(q) {
+		return false
+	}
+	l4 := packets.SpecQ4L4(q)
+	if len(l4) < 8 {
+		return false
+	}
+	src := netip.AddrPortFrom(packets.SpecQ4Src(q), binary.BigEndian.Uint16(l4[0:2]))
+	dst := netip.AddrPortFrom(packets.SpecQ4Dst(q), binary.BigEndian.Uint16(l4[2:4]))
+	d := u.sentProbes[probeID(packets.SpecQ4ID(q))]
+	return dst == specTarget(u) && (u.config.LoosenICMPSrc || src == specLocal(u)) && d != (probeData{}) && d.ttl == t
+}
+
+// specGenuine6: same for ICMPv6, where the per-probe identifier is the quoted IPv6 payload length (UDP only).
+func specGenuine6(u *udpDriver, p *packets.FrameParser, t uint8) bool {
+	q := p.ICMP6.Payload
+	if !specIs6(p) || !specIsErr(p) || !packets.SpecQ6ok(q) || packets.SpecQ6Next(q) == 0 {
+		return false
+	}
+	l4 := packets.SpecQ6L4(q)
+	if len(l4) < 8 {
+		return false
+	}
+	src := netip.AddrPortFrom(packets.SpecQ6Src(q), binary.BigEndian.Uint16(l4[0:2]))
+	dst := netip.AddrPortFrom(packets.SpecQ6Dst(q), binary.BigEndian.Uint16(l4[2:4]))
+	id := 0
+	if packets.SpecQ6Next(q) == 17 {
+		id = packets.SpecQ6Len(q)
+	}
+	d := u.sentProbes[probeID(id)]
+	return dst == specTarget(u) && (u.config.LoosenICMPSrc || src == specLocal(u)) && d != (probeData{}) && d.ttl == t
+}
+
+// specQuotedTTL4/6: the TTL recorded for the probe whose identifier the quote carries (a genuine reply for TTL t
+// always has specQuotedTTL == t, so completeness is stated for that single candidate).
+func specQuotedTTL4(u *udpDriver, p *packets.FrameParser) uint8 {
+	return u.sentProbes[probeID(packets.SpecQ4ID(p.ICMP4.Payload))].ttl
+}
+func specQuotedTTL6(u *udpDriver, p *packets.FrameParser) uint8 {
+	q := p.ICMP6.Payload
+	id := 0
+	if packets.SpecQ6Next(q) == 17 {
+		id = packets.SpecQ6Len(q)
+	}
+	return u.sentProbes[probeID(id)].ttl
+}
+
+// specPlain4 / specPlain6: the quote is as routers produce it for our probes and carries the whole UDP header.
+func specPlain4(p *packets.FrameParser) bool {
+	q := p.ICMP4.Payload
+	return packets.SpecQ4Plain(q) && packets.SpecQ4PayLen(q) >= 8
+}
+func specPlain6(p *packets.FrameParser) bool {
+	q := p.ICMP6.Payload
+	return packets.SpecQ6ok(q) && packets.SpecQ6Next(q) != 0 && packets.SpecQ6Len(q) >= 8 && len(q) >= 52
+}
+
+//@ func (*udpDriver).findMatchingProbe
+//@ inline
+//@ safety C09
+//@ requires[pre.nonnil]  u != nil
+//@ ensures[C05.find]     ret1 == has(u.sentProbes, probeID) && ret0 == u.sentProbes[probeID]
+//@ modifies u.mu
+
+//@ func (*udpDriver).handleProbeLayers
+//@ safety C09
+//@ requires[pre.nonnil]     u != nil && u.parser != nil && u.config != nil
+//@ requires[pre.parsed]     packets.SpecParsed(u.parser)
+//@ requires[pre.past]       forall(k, 0, 65536, u.sentProbes[k].sendTime <= now())
+//@ ensures[C09.xor]         (ret0 == nil) != (ret1 == nil)
+//@ ensures[C09.class]       ret1 != nil ==> chain(ret1, *common.ReceiveProbeNoPktError) || chain(ret1, *common.BadPacketError)
+//@ ensures[C01.sound.kind]  ret0 != nil ==> specIsErr(u.parser) && (specIs4(u.parser) || specIs6(u.parser))
+//@ ensures[C01.sound.v4]    ret0 != nil && specIs4(u.parser) ==> specGenuine4(u, u.parser, ret0.TTL)
+//@ ensures[C01.sound.v6]    ret0 != nil && specIs6(u.parser) && packets.SpecQ6Next(u.parser.ICMP6.Payload) != 0 ==> specGenuine6(u, u.parser, ret0.TTL)
+//@ ensures[C01.addr]        ret0 != nil ==> ret0.IP == packets.SpecOuterSrc(u.parser)
+//@ ensures[C02.compl.v4]    specPlain4(u.parser) && specGenuine4(u, u.parser, specQuotedTTL4(u, u.parser)) ==> ret0 != nil && ret0.TTL == specQuotedTTL4(u, u.parser)
+//@ ensures[C02.compl.v6]    specPlain6(u.parser) && specGenuine6(u, u.parser, specQuotedTTL6(u, u.parser)) ==> ret0 != nil && ret0.TTL == specQuotedTTL6(u, u.parser)
+//@ ensures[C04.dest]        ret0 != nil ==> (ret0.IsDest == (packets.SpecOuterSrc(u.parser) == specTarget(u).Addr()))
+//@ ensures[C05.rtt]         ret0 != nil ==> ret0.RTT >= 0 && exists(k, 0, 65536, u.sentProbes[k] != (probeData{}) && u.sentProbes[k].ttl == ret0.TTL && ret0.RTT == now() - u.sentProbes[k].sendTime)
+//@ ensures[C01.fresh]       ret0 != nil ==> fresh(ret0)
+//@ modifies u.mu, ghost clock
